@@ -2,9 +2,14 @@
   Phil.Include — model of include processing (common.py: parse(file_name=…, process_includes=True),
   scope.process_includes) over an abstract file system: absolute, normalised paths are lists of
   components; `os.path.join/abspath/normpath/dirname` are modelled on such lists (no symlinks).
-  `include scope` (Python import) is outside the model.
+  `include scope <python path> [<phil path>]`: the Python import is a parameter (`IncEnv.imports`: import path ↦ the
+  text of the imported scope — a phil string, or the text a scope object / the scope returned by a callable was parsed
+  from); a failing import, a `$` in the selection and an imported non-scope are outside the model (`unsupported`).
+  The imported scope's own includes are processed first (relative file names against the current directory,
+  `reference_directory=None`), then the optional sub-path is selected with `get`.
 -/
 import Phil.Parse
+import Phil.Fetch
 namespace Phil
 
 abbrev Path := List Str                         -- absolute path, components root-first
@@ -27,23 +32,42 @@ def resolvePath (refdir : Path) (name : Str) : Path :=
 
 def containsDollar (ws : List Word) : Bool := ws.any (fun w => w.value.contains '$' && w.quote != some .s1)
 
+/-- everything `parse(file_name=…, process_includes=True)` reads from outside -/
+structure IncEnv where
+  fs : FS
+  imports : List (Str × Str) := []      -- python import path ↦ text of the imported scope
+  cwd : Path := []
+
+def IncEnv.imported (env : IncEnv) (p : Str) : Option Str := (env.imports.find? (·.1 == p)).map (·.2)
+
+/-- a `$` anywhere in a selection: `get` would substitute variables (outside the model) -/
+def anyDollar : Nat → Obj → Bool
+  | 0, _ => true
+  | _ + 1, .defn _ ws => containsDollar ws
+  | f + 1, .scope _ kids => kids.any (anyDollar f)
+
+/-- `scope.get(path)` on the root scope holding `objs` (selection part of process_include_scope) -/
+def selectPath (objs : List Obj) (path : Str) : List Obj :=
+  let root : Obj := .scope { name := [] } objs
+  getWithoutSubst (depthObj 1000 root + 2) root path
+
 mutual
 /-- parse(file_name=path, process_includes=True, include_stack=stack) → the root's objects.
     `fuel` bounds the include depth (≤ number of files, see `expand_fuel_adequate`). -/
-def expandFile (fs : FS) : Nat → Path → List Path → R (List Obj)
+def expandFile (env : IncEnv) : Nat → Path → List Path → R (List Obj)
   | 0, _, _ => .error .outOfFuel
   | fuel + 1, path, stack =>
-    match fs.read path with
+    match env.fs.read path with
     | none => .error (.stray "FileNotFoundError" "open")
     | some text =>
       match parseObjs text with
       | .error e => .error e
       | .ok objs =>
         if stack.contains path then .error (.runtime "include_cycle" none)
-        else processIncludes fs fuel path.dropLast (stack ++ [path]) objs
+        else processIncludes env fuel path.dropLast (stack ++ [path]) objs
 
 /-- scope.process_includes on a list of objects -/
-def processIncludes (fs : FS) : Nat → Path → List Path → List Obj → R (List Obj)
+def processIncludes (env : IncEnv) : Nat → Path → List Path → List Obj → R (List Obj)
   | _, _, _, [] => .ok []
   | fuel, refdir, stack, o :: rest =>
     let here : R (List Obj) :=
@@ -60,17 +84,40 @@ def processIncludes (fs : FS) : Nat → Path → List Path → List Obj → R (L
             else
               match fuel with
               | 0 => .error .outOfFuel
-              | f + 1 => expandFile fs (f + 1) (resolvePath refdir (ws.getD 1 default).value) stack
-          else if ty == "scope".toList then .error (.unsupported "include scope")
+              | f + 1 => expandFile env (f + 1) (resolvePath refdir (ws.getD 1 default).value) stack
+          else if ty == "scope".toList then
+            if ws.length > 3 then .error (.runtime "include_scope_arguments" m.line)
+            else
+              match env.imported (ws.getD 1 default).value with
+              | none => .error (.unsupported "python import")
+              | some text =>
+                match parseObjs text with
+                | .error e => .error e
+                | .ok src =>
+                  match fuel with
+                  | 0 => .error .outOfFuel
+                  | f + 1 =>
+                    match processIncludes env f env.cwd stack src with
+                    | .error e => .error e
+                    | .ok expanded =>
+                      if ws.length == 2 then .ok expanded
+                      else
+                        let sel := selectPath expanded (ws.getD 2 default).value
+                        if sel.isEmpty then .error (.runtime "include_scope_not_found" m.line)
+                        else if sel.any (anyDollar 1000) then .error (.unsupported "variable in included selection")
+                        else .ok sel
           else .error (.runtime "unknown_include_type" m.line)
       | .scope m kids =>
-        (processIncludes fs fuel refdir stack kids).map (fun ks => [Obj.scope { m with tmpl := 0 } ks])
+        (processIncludes env fuel refdir stack kids).map (fun ks => [Obj.scope { m with tmpl := 0 } ks])
     match here with
     | .error e => .error e
-    | .ok l => (processIncludes fs fuel refdir stack rest).map (fun r => l ++ r)
+    | .ok l => (processIncludes env fuel refdir stack rest).map (fun r => l ++ r)
 end
 
-/-- parse(file_name=root, process_includes=True) -/
-def expand (fs : FS) (root : Path) : R (List Obj) := expandFile fs (fs.length + 1) root []
+/-- parse(file_name=root, process_includes=True).  Fuel: the include stack holds distinct files, and between two
+    file pushes a chain can hop through at most `imports.length` imported scopes (when imported scopes refer only to
+    scopes of lower rank; otherwise Python itself recurses without bound) -/
+def expand (env : IncEnv) (root : Path) : R (List Obj) :=
+  expandFile env ((env.fs.length + 1) * (env.imports.length + 1) + 1) root []
 
 end Phil
